@@ -77,8 +77,9 @@ structure Goroutine where
   nodes : List Node
   /-- source position / description per node (reports only) -/
   sites : List String := []
-  /-- for a `branch` node: the data decisions each successor stands for (scenario replays only) -/
-  conds : List (List String) := []
+  /-- for a `branch` node: per successor, the data decisions (text, outcome) it stands for
+      (scenario replays only) -/
+  conds : List (List (List (String × Nat))) := []
   /-- started by the constructor (running in the initial state); otherwise started by a `spawn` node -/
   static : Bool := true
   /-- long-lived environment goroutine (collector loop, peers): not required to exit -/
